@@ -268,12 +268,12 @@ Qed.
 (* a jump placed at the rational time j / rate is stored in a table at edge = b64 (j / rate); sample k lies at or after the
    edge exactly when k >= j *)
 Theorem grid_edge_side rate j k : (0 < rate)%Q -> (0 <= k)%Z -> (0 <= j < 2 ^ 52)%Z ->
-  bpow radix2 (-1022) <= IZR j / Q2R rate ->
+  ((0 < j)%Z -> bpow radix2 (-1022) <= IZR j / Q2R rate) ->          (* round 5: an edge at time 0 (j = 0) is included *)
   ((b64 (inject_Z j / rate) <= grid_time rate k)%Q <-> (j <= k)%Z).
 Proof.
   intros Hr Hk Hj Hy. change (b64 (inject_Z j / rate)) with (grid_time rate j). split.
   - intro H. destruct (Z_lt_le_dec k j) as [L|L]; [exfalso|exact L].
-    pose proof (grid_time_strict rate k j Hr ltac:(lia) ltac:(lia) Hy) as S.
+    pose proof (grid_time_strict rate k j Hr ltac:(lia) ltac:(lia) (Hy ltac:(lia))) as S.
     apply Qle_not_lt in H. apply H. exact S.
   - intro H. apply grid_time_monotone; assumption.
 Qed.
